@@ -10,8 +10,8 @@ Q_TimeRanges == {<<9, 12>>, <<8, 18>>, <<14, 16>>}
 T_TimeRanges == Q_TimeRanges \cup {<<0, 6>>, <<11, 15>>}
 Q_MonthDays == {<<3, 12>>, <<12, 31>>, <<1, 1>>}
 T_MonthDays == Q_MonthDays \cup {<<2, 28>>, <<7, 4>>, <<2, 29>>}
-Q_Times == {<<10, 0>>, <<15, 30>>, <<0, 0>>}
-T_Times == Q_Times \cup {<<23, 0>>}
+Q_Times == {<<10, 0, 0>>, <<15, 30, 0>>, <<0, 0, 0>>, <<9, 0, 7>>}
+T_Times == Q_Times \cup {<<23, 0, 0>>, <<12, 0, 30>>, <<8, 15, 45>>}
 
 AllCases == TLCEval(ResolveCases \cup EvalCases \cup EvalOrderCases)
 VARIABLES c, pc, call
